@@ -1050,15 +1050,28 @@ def oracle_c05(plan, world, cl, ctx):
                     world.violation("C05", "assigned_nonexistent_partition",
                                     {"generation": g, "member": mid, "tp": list(tp)})
         # adoption + barrier
+        if g in getattr(groups.groups.get(GROUP), "quiet_swap_generations", ()):
+            # a static leader was re-admitted into this Stable generation (broker without
+            # KIP-814): it computed and sent a second distribution for the same generation
+            # number, which the coordinator ignored - "the assignment distributed for the
+            # generation" is ambiguous in the ledger, nothing is judged
+            world.probe("adoption_not_judged_static_leader_swap")
+            continue
         clients = gen.get("clients", {})
         sync_ok = {}  # client -> seq of successful sync_resp for this generation
+        synced_mid = set()  # member ids that completed a SyncGroup in this generation
         for ent in groups.ledger:
             if ent["kind"] == "sync_resp" and ent.get("generation") == g and ent.get("code") == 0:
                 sync_ok[ent["client"]] = ent["seq"]
+                synced_mid.add(ent.get("member"))
         assigned_begin = {}
         for mid, cid in clients.items():
             m = members.get(cid)
             if m is None or cid not in sync_ok:
+                continue
+            if mid not in synced_mid:
+                # a ghost: an earlier member id of the same client (its JoinGroup was cut off,
+                # it joined again under a new id) that never synced and will expire
                 continue
             nxt_join = next((e["seq"] for e in by_client.get(cid, [])
                              if e["kind"] == "join_req" and e["seq"] > sync_ok[cid]), None)
